@@ -296,3 +296,30 @@ Proof.
     destruct (HOk v sU eq_refl) as (res & Hpi & Hag). exists res. split; [exact Hpi|]. unfold agrees in *. rewrite Hp. exact Hag.
   - intros ea t st' Hrun. rewrite Hrun in Ho. cbn [fst] in Ho. subst oU. exact (HRaise ea t sU eq_refl).
 Qed.
+
+(* ---------- the SECOND pass (error mode on) ---------- *)
+(* With the flag on, a guard is true: the module behaves as the module with its guards removed (Proofs/ExecUnguard.v; modules
+   without *_without_invalid methods).  So the second pass implements the reference semantics of the FULL source grammar,
+   the invalid_ alternatives being ordinary alternatives. *)
+From Pegen Require Import Proofs.ExecUnguard.
+Theorem second_pass_agrees_with_source K toks M aeval ex td fm rs :
+  reads_back_with_actions rs (unguard_module M) = true -> no_wi_methods M = true ->
+  (forall xs e vs, nodup_s xs = true -> Forall2 (fun x v => env_get e x = Some v) xs vs ->
+     aeval (default_text xs) e = Some (match vs with [v] => v | _ => VList vs end)) ->
+  (forall e v vs, env_get e "elem" = Some v -> env_get e "seq" = Some (VList vs) -> aeval "[elem] + seq" e = Some (VList (v :: vs))) ->
+  (forall a, plain_alt (unguard_module M) a -> a_explicit a = true -> forall e1 e0,
+     (forall x, In x (conj_vars (a_conjs a)) -> env_get e1 x <> None) -> aeval (a_action a) (e1 ++ e0)%list = aeval (a_action a) e1) ->
+  (forall a, plain_alt (unguard_module M) a -> a_explicit a = true -> forall e v, aeval (a_action a) e = Some v -> truthy v = true) ->
+  (forall s t, In t toks -> is_kind2 s = false -> expect_test K ex td s t = String.eqb (tstr t) s) ->
+  (forall s t, In t toks -> is_kind2 s = true -> expect_test K ex td s t = kind2_test K M s t) ->
+  forall fuel n st, find_rule rs n <> None -> invalid st = true ->
+  (forall v st', run K toks false false M aeval ex td fuel n st = (Ok v, st') ->
+     exists res, peg_item K rs toks (i_keywords M) (i_soft_keywords M) (src_aeval aeval) src_names (fun _ => fm) (NameLeaf n) (pos st) res /\
+                 agrees v st st' res) /\
+  (forall ea t st', run K toks false false M aeval ex td fuel n st = (Raise (XSyntaxError ea t), st') ->
+     exists msg q, peg_item K rs toks (i_keywords M) (i_soft_keywords M) (src_aeval aeval) src_names (fun _ => fm) (NameLeaf n) (pos st) (PErr msg q)).
+Proof.
+  intros Hrb Hnw Ha Hg Hst Htr Hl Hk fuel n st Hn Hi.
+  rewrite (unguard_equiv K toks false false M aeval ex td Hnw fuel n st Hi).
+  exact (run_agrees_with_source_actions K toks (unguard_module M) aeval ex td fm rs Hrb Ha Hg Hst Htr Hl Hk fuel n st Hn).
+Qed.
